@@ -301,7 +301,7 @@ func init() {
 	for _, n := range []string{"nondetString", "nondetBool", "nondetInt", "nondetIntRange", "nondetRegexp", "nondetPred", "nondetURLPred",
 		"nondetRewriter", "nondetError", "verifAssume", "verifAssert", "verifReach", "verifProvenance", "verifFreeze", "verifNote",
 		"verifNoteBool", "verifNoteInt", "verifMatch", "verifHasToken", "verifCut", "verifIsTokStr", "verifLower", "verifURLHost", "verifURLScheme", "verifURLOk", "verifURLNorm",
-		"verifEffects", "verifSameObject", "verifWrite", "verifWriteFailed", "verifOr", "verifAnd", "verifImplies", "verifCurrentToken", "verifIte", "verifNot", "verifMatchPrefix", "verifAppended", "verifParam", "verifNoteURL", "verifURLStubCount", "verifURLStubProduced", "verifRU", "verifJoinIf", "verifCallCount"} {
+		"verifEffects", "verifSameObject", "verifWrite", "verifWriteFailed", "verifOr", "verifAnd", "verifImplies", "verifCurrentToken", "verifIte", "verifNot", "verifMatchPrefix", "verifAppended", "verifParam", "verifNoteURL", "verifURLStubCount", "verifURLStubProduced", "verifRU", "verifJoinIf", "verifCallCount", "verifDisjointHeaps"} {
 		intrinsicNames[n] = true
 	}
 }
@@ -492,6 +492,20 @@ func (in *Interp) intrinsic(st *State, fr *Frame, name string, args []Value, cc 
 			}
 		}
 		return one(smt.IntC(int64(n)))
+	case "verifDisjointHeaps":
+		ra, rb := map[int]bool{}, map[int]bool{}
+		in.reachable(st, args[0], ra)
+		in.reachable(st, args[1], rb)
+		shared := ""
+		for id := range ra {
+			if rb[id] {
+				shared = fmt.Sprintf("obj%d (%s)", id, in.objName(id))
+			}
+		}
+		if shared != "" {
+			st.Trace = append(st.Trace, "shared object: "+shared)
+		}
+		return one(smt.BoolC(shared == ""))
 	case "verifNot":
 		return one(smt.Not(termOf(args[0])))
 	case "verifMatchPrefix":
@@ -569,4 +583,54 @@ func copyGhost(st *State) map[string]Value {
 	g["trace"] = append([]string(nil), st.Trace...)
 	g["effects"] = append([]string(nil), st.Effects...)
 	return g
+}
+
+
+// reachable collects the mutable heap objects reachable from v (regexp
+// objects are immutable and may be shared).
+func (in *Interp) reachable(st *State, v Value, seen map[int]bool) {
+	visitObj := func(id int) {
+		if id <= 0 || seen[id] {
+			return
+		}
+		cell := st.Heap[id]
+		if _, isRe := cell.(*RegexObj); isRe {
+			return
+		}
+		seen[id] = true
+		in.reachable(st, cell, seen)
+	}
+	switch x := v.(type) {
+	case Ptr:
+		visitObj(x.Obj)
+	case MapV:
+		visitObj(x.Obj)
+	case SliceV:
+		visitObj(x.Arr)
+	case IfaceV:
+		in.reachable(st, x.V, seen)
+	case *StructV:
+		for _, f := range x.F {
+			in.reachable(st, f, seen)
+		}
+	case *ArrayV:
+		for _, e := range x.E {
+			in.reachable(st, e, seen)
+		}
+	case *MapData:
+		for _, e := range x.Entries {
+			in.reachable(st, e.K, seen)
+			in.reachable(st, e.V, seen)
+		}
+	case *FuncV:
+		if x != nil {
+			for _, f := range x.Free {
+				in.reachable(st, f, seen)
+			}
+		}
+	case TupleV:
+		for _, e := range x {
+			in.reachable(st, e, seen)
+		}
+	}
 }
